@@ -12,6 +12,7 @@ package main
 
 import (
 	"fmt"
+	"go/constant"
 	"go/token"
 	"go/types"
 	"sort"
@@ -44,11 +45,14 @@ func init() {
 			"(D5) the export contains both keys, entries and a heads record; the entry list is drawn from the whole log (GetEntries/Values, not the heads) of both the metadata and the message store; each entry file carries RawData() of the node fetched by the CID that names the file; every GroupHeadsExport field the restorer reads is written by the exporter, and each head list is loaded into the kind of store it was taken from. " +
 			"(D6) in the functions that read or write the archive every error result is tested and its failing side reaches only error returns (io.EOF, when tested explicitly, ends the read loop); the error returned through the handler table is tested on every path out of the call before the next handler, the next entry or a success return — or, where it is skipped for unhandled entries only, no built-in handler reports a failure as (false, err); and the callers between ServiceExportData and the archive writers enforce the writers' errors. " +
 			"(D8) a built-in handler returns 'handled' without error only behind its effect (key bytes stored, node added to the DAG, heads handed to the store loader). " +
+			"(D9) the set of groups the export walks (the map ranged over by the exporter) agrees with the service's live group contexts: in every function that stores a non-nil *GroupContext into the service or activates one, each success return lies behind a store into that map. " +
+			"(D10) the group registry that the heads restore writes with a partial group (no secret, no type) is overwritten (sync.Map Store/Swap, not LoadOrStore / load-then-skip) with the caller's group before any store is opened in write mode, on every call chain. " +
+			"(D11) in the export RPC every path from a read of the archive pipe to the next read or to the end of the sender passes the Send of buffer[:n], except where err == io.EOF, n == 0 or an error is recorded; the frame sent is the read buffer cut to the count returned by that read. " +
 			"(D7) behind SecretStore.ImportAccountKeys every keystore Put lies behind a keystore Has phase whose 'exists' side reaches only error returns, and every error result on that path rejects (an existing account or an undecodable/missing key blob fails the import before anything is written). " +
 			"Not decided: that go-orbit-db's replicator/Load rebuilds an equal log and index from the restored blocks and heads (dependency), byte equality beyond 'the raw block of that CID' (cbornode.Decode re-serialises canonically), the guards inside the secret store (C11), snapshot consistency of an export racing with appends, errors that setHeadsForGroup only logs (advisory note).",
 		Trusted:     []string{"golang.org/x/tools go/packages+go/ssa (v0.29.0)", "archive/tar, go-cid (Parse, Cid.Equals), go-ipld-cbor Decode/Cid, go-ipld-format DAGService semantics", "go/types"},
 		Assumptions: []string{"dependencies behave as documented; only module code is analysed", "variables captured by the handler closures are assigned once (checked: single store)", "SHA2-256 content addressing is collision resistant, so a node whose CID equals the CID in the file name is the exported block"},
-		Floors:      map[string]int{"D1": 1, "D2": 2, "D3": 5, "D4": 4, "D5": 12, "D6": 8, "D7": 4, "D8": 3},
+		Floors:      map[string]int{"D1": 1, "D2": 2, "D3": 5, "D4": 4, "D5": 12, "D6": 8, "D7": 4, "D8": 3, "D9": 3, "D10": 2, "D11": 2},
 		Run:         runC20,
 	})
 }
@@ -2588,6 +2592,17 @@ func runC20(c *Ctx) {
 	// ------------------------------------------------------------------ D7: existing account refused
 	runC20ImportGuards(c)
 
+	// ------------------------------------------------------------------ D9 / D10 / D11
+	var headFns []*ssa.Function
+	for _, hi := range hinfos {
+		if hi.roles["heads"] {
+			headFns = append(headFns, hi.h.Fn)
+		}
+	}
+	runC20Registry(c, exportFns)
+	runC20OpenRegistry(c, headFns)
+	runC20Stream(c, exportRoots)
+
 	// ------------------------------------------------------------------ D6: every error aborts
 	var d6 []*ssa.Function
 	for _, f := range restoreFns {
@@ -3025,4 +3040,613 @@ func runC20ImportGuards(c *Ctx) {
 	if nHas == 0 && nPut > 0 {
 		c.fail("D7", fnName(impl)+"+keystore.Has", impl.Pos(), "ImportAccountKeys never asks the keystore whether an account key already exists: a restore onto a used store is not rejected")
 	}
+}
+
+// ---------------------------------------------------------------------------
+// D9: the set of groups the export walks = the service's live group contexts
+
+func c20IsGroupCtxPtr(t types.Type) bool {
+	p, ok := t.(*types.Pointer)
+	return ok && c20IsNamed(p.Elem(), c20Root, "GroupContext") && c20Named(p.Elem()) != nil
+}
+
+// c20ReachAvoid: blocks reachable from start without entering any block of avoid (start is
+// included unless it is itself avoided).
+func c20ReachAvoid(start *ssa.BasicBlock, avoid map[*ssa.BasicBlock]bool) map[*ssa.BasicBlock]bool {
+	seen := map[*ssa.BasicBlock]bool{}
+	if avoid[start] {
+		return seen
+	}
+	seen[start] = true
+	stack := []*ssa.BasicBlock{start}
+	for len(stack) > 0 {
+		b := stack[len(stack)-1]
+		stack = stack[:len(stack)-1]
+		for _, s := range b.Succs {
+			if !seen[s] && !avoid[s] {
+				seen[s] = true
+				stack = append(stack, s)
+			}
+		}
+	}
+	return seen
+}
+
+func c20WithAnons(fns []*ssa.Function) []*ssa.Function {
+	seen := map[*ssa.Function]bool{}
+	var out []*ssa.Function
+	var add func(f *ssa.Function)
+	add = func(f *ssa.Function) {
+		if f == nil || seen[f] || f.Blocks == nil {
+			return
+		}
+		seen[f] = true
+		out = append(out, f)
+		for _, a := range f.AnonFuncs {
+			add(a)
+		}
+	}
+	for _, f := range fns {
+		add(f)
+	}
+	return out
+}
+
+func runC20Registry(c *Ctx, exportFns []*ssa.Function) {
+	w := c.W
+	// the map the exporter ranges over
+	var m *types.Var
+	var owner *types.Named
+	for _, f := range c20WithAnons(exportFns) {
+		for _, b := range f.Blocks {
+			for _, in := range b.Instrs {
+				rg, ok := in.(*ssa.Range)
+				if !ok {
+					continue
+				}
+				base, fv, ok := c20FieldRead(rg.X)
+				if !ok {
+					continue
+				}
+				mt, ok := fv.Type().Underlying().(*types.Map)
+				if !ok || !c20IsGroupCtxPtr(mt.Elem()) {
+					continue
+				}
+				m, owner = fv, c20Named(base.Type())
+			}
+		}
+	}
+	if m == nil || owner == nil {
+		c.undecided("D9", "export+group-set", token.NoPos, "the exporter does not range over a map[..]*GroupContext field: cannot tell which groups an export covers")
+		return
+	}
+	isOwner := func(t types.Type) bool {
+		n := c20Named(t)
+		return n != nil && n.Obj() == owner.Obj()
+	}
+	n := 0
+	for _, fn := range w.ModFuncs {
+		if p := fnPkg(fn); p == nil || p.Path() != c20Root {
+			continue
+		}
+		// registrations: stores into the map (through the field, or into a map value that the
+		// function installs as the field)
+		regs := map[*ssa.BasicBlock]bool{}
+		installed := map[ssa.Value]bool{}
+		for _, b := range fn.Blocks {
+			for _, in := range b.Instrs {
+				if st, ok := in.(*ssa.Store); ok {
+					if fa, ok := st.Addr.(*ssa.FieldAddr); ok && isOwner(fa.X.Type()) {
+						stt := fa.X.Type().Underlying().(*types.Pointer).Elem().Underlying().(*types.Struct)
+						if stt.Field(fa.Field) == m {
+							installed[st.Val] = true
+						}
+					}
+				}
+			}
+		}
+		for _, b := range fn.Blocks {
+			for _, in := range b.Instrs {
+				mu, ok := in.(*ssa.MapUpdate)
+				if !ok {
+					continue
+				}
+				if _, fv, ok := c20FieldRead(mu.Map); (ok && fv == m) || installed[mu.Map] {
+					regs[b] = true
+				}
+			}
+		}
+		type site struct {
+			in   ssa.Instruction
+			what string
+		}
+		var sites []site
+		recvOwner := fn.Signature.Recv() != nil && isOwner(fn.Signature.Recv().Type())
+		for _, b := range fn.Blocks {
+			for _, in := range b.Instrs {
+				switch x := in.(type) {
+				case *ssa.Store:
+					fa, ok := x.Addr.(*ssa.FieldAddr)
+					if !ok || !isOwner(fa.X.Type()) || isNilConst(x.Val) {
+						continue
+					}
+					stt := fa.X.Type().Underlying().(*types.Pointer).Elem().Underlying().(*types.Struct)
+					if c20IsGroupCtxPtr(stt.Field(fa.Field).Type()) {
+						sites = append(sites, site{x, "live-context(" + stt.Field(fa.Field).Name() + ")"})
+					}
+				case *ssa.Call:
+					if recvOwner && c20Method(x.Common(), c20Root, "ActivateGroupContext") {
+						sites = append(sites, site{x, "ActivateGroupContext"})
+					}
+				}
+			}
+		}
+		if len(sites) == 0 {
+			continue
+		}
+		c.analysed(fn)
+		fromEntry := c20ReachAvoid(fn.Blocks[0], regs)
+		for _, st := range sites {
+			n++
+			construct := fnName(fn) + "+" + st.what
+			blk := st.in.Block()
+			var bad []*ssa.Return
+			if !regs[blk] && fromEntry[blk] {
+				after := c20ReachAvoid(blk, regs)
+				for _, r := range returnsOf(fn) {
+					if after[r.Block()] && isSuccessReturn(r) {
+						bad = append(bad, r)
+					}
+				}
+			}
+			c.check(len(bad) == 0, "D9", construct, posOf(st.in), "every success path through it also registers the context in the map the export walks ("+m.Name()+")",
+				"a group context becomes the service's live context here, but a success return ("+describeReturns(c, bad)+") is reached without it being stored into "+m.Name()+", the map the export walks: the group is open and usable yet missing (entries and heads) from every export")
+		}
+	}
+	if n == 0 {
+		c.undecided("D9", "service+activation", token.NoPos, "no function stores a *GroupContext into the service or activates one")
+	}
+}
+
+// ---------------------------------------------------------------------------
+// D10: the registry the heads restore fills with a partial group is overwritten on the open path
+
+type c20RegWrite struct {
+	call   *ssa.Call
+	method string
+}
+
+func c20RegistryWrites(fn *ssa.Function, reg *types.Var) (writes []c20RegWrite, loads []*ssa.Call) {
+	for _, b := range fn.Blocks {
+		for _, in := range b.Instrs {
+			call, ok := in.(*ssa.Call)
+			if !ok {
+				continue
+			}
+			k := calleeKey(call.Common())
+			if !strings.HasPrefix(k, "(*sync.Map).") || len(call.Common().Args) == 0 {
+				continue
+			}
+			_, fv, ok := c20FieldRead(call.Common().Args[0])
+			if !ok || (reg != nil && fv != reg) {
+				continue
+			}
+			meth := strings.TrimPrefix(k, "(*sync.Map).")
+			switch meth {
+			case "Store", "Swap", "LoadOrStore", "CompareAndSwap":
+				writes = append(writes, c20RegWrite{call, meth})
+			}
+			if meth == "Load" || meth == "LoadOrStore" {
+				loads = append(loads, call)
+			}
+		}
+	}
+	return
+}
+
+// c20GroupValueArg: the sync.Map write stores a *protocoltypes.Group.
+func c20GroupValueArg(call *ssa.Call) bool {
+	for _, a := range call.Common().Args[1:] {
+		if mi, ok := a.(*ssa.MakeInterface); ok && c20IsNamed(mi.X.Type(), c20Types, "Group") {
+			if _, isPtr := mi.X.Type().(*types.Pointer); isPtr {
+				return true
+			}
+		}
+	}
+	return false
+}
+
+func runC20OpenRegistry(c *Ctx, headFns []*ssa.Function) {
+	w := c.W
+	// the registry: a sync.Map field into which the heads restore stores a Group
+	var reg *types.Var
+	var regWriter *ssa.Function
+	var rfns []*ssa.Function
+	for f := range w.reachableFuncs(headFns, 4) {
+		if p := fnPkg(f); p != nil && p.Path() == c20Root {
+			rfns = append(rfns, f)
+		}
+	}
+	sort.Slice(rfns, func(i, j int) bool { return rfns[i].String() < rfns[j].String() })
+	for _, f := range rfns {
+		ws, _ := c20RegistryWrites(f, nil)
+		for _, wr := range ws {
+			if c20GroupValueArg(wr.call) {
+				_, fv, _ := c20FieldRead(wr.call.Common().Args[0])
+				reg, regWriter = fv, f
+			}
+		}
+	}
+	if reg == nil {
+		c.ok("D10", "restore+group-registry", token.NoPos, "the heads restore records no group in a registry: nothing can shadow the group of a later open")
+		c.ok("D10", "restore+group-registry.open", token.NoPos, "(no registry written by restore)")
+		return
+	}
+	c.analysed(regWriter)
+	var writeVal constant.Value
+	if p := w.typesPkg(c20Root); p != nil {
+		if k, ok := p.Scope().Lookup("GroupOpenModeWrite").(*types.Const); ok {
+			writeVal = k.Val()
+		}
+	}
+	if writeVal == nil {
+		c.undecided("D10", "GroupOpenModeWrite", token.NoPos, "constant GroupOpenModeWrite not found")
+		return
+	}
+	var weak []string
+	memo := map[ssa.Instruction]int{}
+	var check func(fn *ssa.Function, at ssa.Instruction, depth int) bool
+	check = func(fn *ssa.Function, at ssa.Instruction, depth int) bool {
+		if v := memo[at]; v != 0 {
+			return v == 2
+		}
+		memo[at] = 1
+		writes, loads := c20RegistryWrites(fn, reg)
+		for _, wr := range writes {
+			if !c20GroupValueArg(wr.call) {
+				continue
+			}
+			if wr.method != "Store" && wr.method != "Swap" {
+				weak = append(weak, fmt.Sprintf("%s uses %s (first write wins) at %s", fnName(fn), wr.method, c.pos(posOf(wr.call))))
+				continue
+			}
+			guarded := false
+			for _, ld := range loads {
+				if bv := boolVerdict(ld); bv != nil {
+					ve := edgesOfVerdict(bv)
+					if c20UnreachableWithout(wr.call.Block(), ve.Reject) || c20UnreachableWithout(wr.call.Block(), ve.Accept) {
+						guarded = true
+					}
+				}
+			}
+			if guarded {
+				weak = append(weak, fmt.Sprintf("%s stores only depending on a previous Load of the registry at %s", fnName(fn), c.pos(posOf(wr.call))))
+				continue
+			}
+			if instrDominates(wr.call, at) {
+				memo[at] = 2
+				return true
+			}
+		}
+		callers := w.callGraph().callers[fn]
+		if len(callers) == 0 || depth >= 4 {
+			return false
+		}
+		for _, cs := range callers {
+			if !check(cs.Caller, cs.Instr, depth+1) {
+				return false
+			}
+		}
+		memo[at] = 2
+		return true
+	}
+	n := 0
+	for _, fn := range w.ModFuncs {
+		if p := fnPkg(fn); p == nil || p.Path() != c20Root {
+			continue
+		}
+		for _, b := range fn.Blocks {
+			for _, in := range b.Instrs {
+				call, ok := in.(*ssa.Call)
+				if !ok {
+					continue
+				}
+				isWrite := false
+				for _, a := range call.Common().Args {
+					if k, ok := a.(*ssa.Const); ok && k.Value != nil && c20IsNamed(k.Type(), c20Root, "GroupOpenMode") && constant.Compare(k.Value, token.EQL, writeVal) {
+						isWrite = true
+					}
+				}
+				if !isWrite {
+					continue
+				}
+				n++
+				c.analysed(fn)
+				weak = nil
+				ok = check(fn, call, 0)
+				why := ""
+				if len(weak) > 0 {
+					why = ": " + strings.Join(c20Uniq(weak), "; ")
+				}
+				c.check(ok, "D10", fnName(fn)+"+open(write)", posOf(call), "on every call chain the registry "+reg.Name()+" is overwritten with the caller's group before the stores are opened in write mode",
+					"stores are opened in write mode without the registry "+reg.Name()+" having been overwritten with the caller's group on every call chain"+why+"; the heads restore ("+fnName(regWriter)+") leaves a partial group (no secret, no type) under the same id, so after a restore the stores are built around that group")
+			}
+		}
+	}
+	if n == 0 {
+		c.undecided("D10", "open(write)", token.NoPos, "no call passes GroupOpenModeWrite")
+	}
+}
+
+// ---------------------------------------------------------------------------
+// D11: everything read from the archive pipe is sent
+
+// c20ZeroOnlyEdges: edges that can only be taken when the non-negative count n is 0.
+func c20ZeroOnlyEdges(n ssa.Value) []edge {
+	var out []edge
+	var vals []ssa.Value
+	vals = append(vals, n)
+	if n.Referrers() != nil {
+		for _, r := range *n.Referrers() {
+			if cv, ok := r.(*ssa.Convert); ok {
+				vals = append(vals, cv)
+			}
+		}
+	}
+	for _, v := range vals {
+		if v.Referrers() == nil {
+			continue
+		}
+		for _, r := range *v.Referrers() {
+			bo, ok := r.(*ssa.BinOp)
+			if !ok || bo.Referrers() == nil {
+				continue
+			}
+			var zeroTruth, otherCanShare bool
+			k, isK := constInt(bo.Y)
+			left := true
+			if !isK || bo.X != v {
+				k, isK = constInt(bo.X)
+				left = false
+				if !isK || bo.Y != v {
+					continue
+				}
+			}
+			// truth of the comparison for n = 0 and whether some n > 0 gives the same truth
+			eval := func(x int64) bool {
+				l, r := x, k
+				if !left {
+					l, r = k, x
+				}
+				switch bo.Op {
+				case token.EQL:
+					return l == r
+				case token.NEQ:
+					return l != r
+				case token.LSS:
+					return l < r
+				case token.LEQ:
+					return l <= r
+				case token.GTR:
+					return l > r
+				case token.GEQ:
+					return l >= r
+				}
+				return false
+			}
+			switch bo.Op {
+			case token.EQL, token.NEQ, token.LSS, token.LEQ, token.GTR, token.GEQ:
+			default:
+				continue
+			}
+			zeroTruth = eval(0)
+			for _, x := range []int64{1, 2, k - 1, k, k + 1, 1 << 40} {
+				if x > 0 && eval(x) == zeroTruth {
+					otherCanShare = true
+				}
+			}
+			if otherCanShare {
+				continue
+			}
+			for _, r2 := range *bo.Referrers() {
+				ifi, ok := r2.(*ssa.If)
+				if !ok || ifi.Cond != ssa.Value(bo) {
+					continue
+				}
+				b := ifi.Block()
+				if zeroTruth {
+					out = append(out, edge{b, b.Succs[0]})
+				} else {
+					out = append(out, edge{b, b.Succs[1]})
+				}
+			}
+		}
+	}
+	return out
+}
+
+func runC20Stream(c *Ctx, roots []*ssa.Function) {
+	type readSite struct {
+		call *ssa.Call
+		buf  ssa.Value
+		n    ssa.Value
+		err  ssa.Value
+	}
+	nRead := 0
+	for _, fn := range c20WithAnons(roots) {
+		var reads []readSite
+		var sends []*ssa.Call
+		for _, b := range fn.Blocks {
+			for _, in := range b.Instrs {
+				call, ok := in.(*ssa.Call)
+				if !ok {
+					continue
+				}
+				cc := call.Common()
+				k := calleeKey(cc)
+				var buf ssa.Value
+				switch {
+				case k == "io.ReadFull" || k == "io.ReadAtLeast":
+					if len(cc.Args) >= 2 {
+						buf = cc.Args[1]
+					}
+				case c20Method(cc, "", "Read"):
+					_, rest := c20Recv(cc)
+					if len(rest) == 1 && c20IsByteSlice(rest[0].Type()) {
+						buf = rest[0]
+					}
+				case cc.IsInvoke() && cc.Method.Name() == "Send" && len(cc.Args) == 1:
+					// the stream's Send (declared by grpc's generic server stream) of a protocol message
+					if n := c20Named(cc.Args[0].Type()); n != nil && n.Obj().Pkg() != nil && n.Obj().Pkg().Path() == c20Types {
+						sends = append(sends, call)
+					}
+				}
+				if buf != nil && nResults(call) == 2 {
+					reads = append(reads, readSite{call, c20Strip(buf), resultValue(call, 0), resultValue(call, 1)})
+				}
+			}
+		}
+		if len(reads) == 0 {
+			continue
+		}
+		c.analysed(fn)
+		// a send is good for a read when its payload is buf[:n] of that read
+		goodFor := func(snd *ssa.Call, rd readSite) bool {
+			if len(snd.Common().Args) != 1 || rd.n == nil {
+				return false
+			}
+			al, ok := c20Strip(snd.Common().Args[0]).(*ssa.Alloc)
+			if !ok || al.Referrers() == nil {
+				return false
+			}
+			for _, r := range *al.Referrers() {
+				fa, ok := r.(*ssa.FieldAddr)
+				if !ok || fa.Referrers() == nil {
+					continue
+				}
+				for _, r2 := range *fa.Referrers() {
+					st, ok := r2.(*ssa.Store)
+					if !ok || st.Addr != ssa.Value(fa) || !c20IsByteSlice(st.Val.Type()) {
+						continue
+					}
+					sl, ok := c20Strip(st.Val).(*ssa.Slice)
+					if !ok || c20Strip(sl.X) != rd.buf || sl.High == nil || c20Strip(sl.High) != rd.n {
+						return false
+					}
+					if sl.Low != nil {
+						if lo, ok := constInt(sl.Low); !ok || lo != 0 {
+							return false
+						}
+					}
+					return true
+				}
+			}
+			return false
+		}
+		for _, snd := range sends {
+			ok := false
+			for _, rd := range reads {
+				if goodFor(snd, rd) {
+					ok = true
+				}
+			}
+			c.check(ok, "D11", fnName(fn)+"+Send.frame", posOf(snd), "the frame sent is the read buffer cut to the count the read returned", "the frame handed to Send is not buffer[:n] of a read of the archive pipe (whole buffer, another count or another buffer): the client receives bytes that are not the archive's")
+		}
+		for _, rd := range reads {
+			nRead++
+			construct := fnName(fn) + "+" + calleeKey(rd.call.Common()) + "->Send"
+			if rd.n == nil || rd.err == nil {
+				c.fail("D11", construct, posOf(rd.call), "the byte count or the error of the pipe read is discarded")
+				continue
+			}
+			stop := map[*ssa.BasicBlock]bool{}
+			for _, snd := range sends {
+				if goodFor(snd, rd) {
+					stop[snd.Block()] = true
+				}
+			}
+			for _, b := range fn.Blocks {
+				for _, in := range b.Instrs {
+					if st, ok := in.(*ssa.Store); ok && isErrorType(st.Val.Type()) && definitelyNonNilErr(st.Val, b, 0) {
+						stop[b] = true
+					}
+				}
+			}
+			cut := map[edge]bool{}
+			for _, e := range c20EOFEdges(rd.err) {
+				cut[e] = true
+			}
+			for _, e := range c20ZeroOnlyEdges(rd.n) {
+				cut[e] = true
+			}
+			start := rd.call.Block()
+			var escapes []string
+			if !stop[start] || !c20AfterInBlock(rd.call, stop, sends) {
+				seen := map[*ssa.BasicBlock]bool{}
+				var stack []*ssa.BasicBlock
+				push := func(from, to *ssa.BasicBlock) {
+					if cut[edge{from, to}] {
+						return
+					}
+					if to == start {
+						escapes = append(escapes, "the next read")
+						return
+					}
+					if !seen[to] {
+						seen[to] = true
+						stack = append(stack, to)
+					}
+				}
+				for _, s := range start.Succs {
+					push(start, s)
+				}
+				idx := errResultIndex(fn.Signature)
+				for len(stack) > 0 {
+					b := stack[len(stack)-1]
+					stack = stack[:len(stack)-1]
+					if stop[b] {
+						continue
+					}
+					if len(b.Instrs) > 0 {
+						if ret, ok := b.Instrs[len(b.Instrs)-1].(*ssa.Return); ok && b != fn.Recover {
+							res := c20RetResults(ret)
+							if idx < 0 || idx >= len(res) || !definitelyNonNilErr(res[idx], b, 0) {
+								escapes = append(escapes, "the end of the sender at "+c.pos(posOf(ret)))
+							}
+							continue
+						}
+					}
+					for _, s := range b.Succs {
+						push(b, s)
+					}
+				}
+			}
+			escapes = c20Uniq(escapes)
+			c.check(len(escapes) == 0, "D11", construct, posOf(rd.call), "every path from the read passes Send(buffer[:n]) unless err == io.EOF, n == 0 or an error is recorded",
+				"bytes read from the archive pipe can be dropped: a path from the read reaches "+strings.Join(escapes, ", ")+" without sending buffer[:n], without err being io.EOF and without an error being recorded (e.g. a short last read treated as end of stream): the client receives a truncated archive as a complete export")
+		}
+	}
+	if nRead == 0 {
+		c.undecided("D11", "ServiceExportData+read-loop", token.NoPos, "no read of the archive pipe ((io.Reader).Read / io.ReadFull / io.ReadAtLeast into a byte buffer) found in the export RPC")
+	}
+}
+
+// c20AfterInBlock: in the read's own block, a good send or an error record follows the read.
+func c20AfterInBlock(rd *ssa.Call, stop map[*ssa.BasicBlock]bool, sends []*ssa.Call) bool {
+	after := false
+	for _, in := range rd.Block().Instrs {
+		if in == ssa.Instruction(rd) {
+			after = true
+			continue
+		}
+		if !after {
+			continue
+		}
+		for _, s := range sends {
+			if in == ssa.Instruction(s) {
+				return true
+			}
+		}
+	}
+	return false
 }
